@@ -67,6 +67,20 @@ REGISTRY = {
         assumptions=COMMON_ASSUMPTIONS,
         timeout_s={"quick": 300, "thorough": 1500},
     ),
+    "C05": dict(
+        jobs=lambda tier, seed: (
+            [("vf.props.nonherm", "c05", c) for c in configs.hermitian_configs(tier, hermitian=False)]
+            + [("vf.props.nonherm", "c05_vs_hermitian", dict(c, _vs=1)) for c in configs.hermitian_configs(tier, hermitian=True)
+               if c["max_order"] <= 3 or tier == "thorough"]
+        ),
+        job_of_config=lambda cfg: ("vf.props.nonherm", "c05_vs_hermitian" if cfg.get("_vs") else "c05"),
+        technique="real block_diagonalize(hermitian=False) executed on symbolic general complex matrices (carrier B: complex symbolic/rational spectrum via callback solver; "
+        "carrier A: real diagonal solver with symmetric and asymmetric masks); z3 decides U_inv U = U U_inv = 1, U_inv H U = H_tilde on kept / 0 on eliminated (own Cauchy products), "
+        "the gauge condition, and equality with the Hermitian-mode outputs on Hermitian symbolic input (two real runs)",
+        bounds=HERM_BOUNDS,
+        assumptions=COMMON_ASSUMPTIONS + ["complex energy gaps enter as atoms |E_a-E_b|^2 != 0"],
+        timeout_s={"quick": 300, "thorough": 1500},
+    ),
 }
 
 # Properties not (yet) claimed, each with the reason.  Entries disappear as checks are registered.
